@@ -39,6 +39,7 @@ CONSTANTS
     Modes,      \* subset of {"cold", "warm"}: empty caches / every node knows every next hop
     Replies,    \* BOOLEAN: explore one reply to the shown source after the first message
     Ghost,      \* BOOLEAN: also address a network that does not exist
+    Burst,      \* BOOLEAN: the source may submit a second message right behind the first (before anything is delivered)
     Kinds,      \* destination kinds the scenario may use: subset of {"ls", "lb", "gb", "rs", "rb"}
     Dev         \* "none" = the design (and the code).  Named deviations, used to show that the invariants are
                 \* not vacuous: "fanout_all" (global fan-out includes the arrival adapter), "no_decrement",
@@ -283,11 +284,12 @@ Macs == {MacOf(s) : s \in Stations}
 Quiescent == \A l \in Lans : lan[l] = <<>>
 
 Next ==
-    \/ /\ msgs = <<>>
+    \/ /\ msgs = <<>> \/ (Burst /\ Len(msgs) = 1 /\ act.n = "Send")
        /\ \E n \in Stations, k \in Kinds, dnet \in 0..GhostNet, dmac \in Macs \cup {0},
-             h \in SendHops : CanSend(n, k, dnet, dmac) /\ Send(n, k, dnet, dmac, h, 0)
+             h \in SendHops : /\ CanSend(n, k, dnet, dmac) /\ (msgs # <<>> => n = msgs[1].src)
+                              /\ Send(n, k, dnet, dmac, h, 0)
     \/ \E l \in Lans : \E i \in 1..Len(lan[l]) : Rx(l, i)
-    \/ /\ Replies /\ Quiescent /\ Len(msgs) = 1
+    \/ /\ Replies /\ Quiescent /\ Len(msgs) >= 1 /\ \A k \in 1..Len(msgs) : msgs[k].re = 0
        /\ \E s \in Stations : \E j \in 1..Len(up[s]) : Reply(s, j)
 
 Spec == Init /\ [][Next]_vars
